@@ -81,7 +81,8 @@ B64Encode(bs) ==
 \* a sequence of one-character strings as one string (for export)
 Str(cs) == FoldLeft(LAMBDA acc, c : acc \o c, "", cs)
 
-B64Index(c) == IF \E i \in 1..64 : B64Chars[i] = c THEN (CHOOSE i \in 1..64 : B64Chars[i] = c) - 1 ELSE 0 - 1
+B64Val == TLCEval([c \in {B64Chars[i] : i \in 1..64} |-> (CHOOSE i \in 1..64 : B64Chars[i] = c) - 1])
+B64Index(c) == IF c \in DOMAIN B64Val THEN B64Val[c] ELSE 0 - 1
 \* strict decoding (RFC 4648 sections 3.3 and 3.5): only alphabet characters, length a multiple of 4,
 \* at most two "=" at the very end, unused bits zero.  [ok, v]
 B64Decode(cs) ==
@@ -110,9 +111,10 @@ BE32(v) == [i \in 1..32 |-> IF i <= 28 THEN 0
                              ELSE IF i = 29 THEN v \div 16777216
                              ELSE IF i = 30 THEN (v \div 65536) % 256
                              ELSE IF i = 31 THEN (v \div 256) % 256 ELSE v % 256]
-\* value of 32 big-endian bytes when it is below 2^31, else -1 ("huge": above every toy group order)
-BEVal(bs) == IF (\E i \in 1..28 : bs[i] # 0) \/ bs[29] >= 128 THEN 0 - 1
-             ELSE bs[29] * 16777216 + bs[30] * 65536 + bs[31] * 256 + bs[32]
+\* value of the 32 big-endian bytes bs[o+1..o+32] when it is below 2^31, else -1 ("huge")
+BEValAt(bs, o) == IF (\E i \in 1..28 : bs[o + i] # 0) \/ bs[o + 29] >= 128 THEN 0 - 1
+                  ELSE bs[o + 29] * 16777216 + bs[o + 30] * 65536 + bs[o + 31] * 256 + bs[o + 32]
+BEVal(bs) == BEValAt(bs, 0)
 Compact(h, rb, sb) == <<h>> \o rb \o sb                       \* 1 + 32 + 32 bytes
 CompactText(recid, comp, r, s) == B64Encode(Compact(HeaderByte(recid, comp), BE32(r), BE32(s)))
 
